@@ -40,7 +40,7 @@ func goid() uint64 {
 	return id
 }
 
-const stuckAfter = 20 * time.Second
+const stuckAfter = 120 * time.Second // generous: a loaded machine must not turn a slow step into an alarm
 
 // ---- scheduler
 
